@@ -451,7 +451,12 @@ func cmdTranslate(repo, outDir string) int {
 		fmt.Println("translate: rules: ", err)
 		return 2
 	}
-	hows := []string{factsMsg, rulesMsg}
+	intMsg, err := writeIntFns(outDir, repo)
+	if err != nil {
+		fmt.Println("translate: intfns: ", err)
+		return 2
+	}
+	hows := []string{factsMsg, rulesMsg, intMsg}
 	for _, p := range predNames {
 		hows = append(hows, p+"="+how[p]+":"+strconv.Itoa(len(tabs[p])))
 	}
